@@ -127,6 +127,23 @@ inductive Reach (P : Params) : St → Prop
   | init : Reach P (init P)
   | step {s s'} : Reach P s → Step P s s' → Reach P s'
 
+/-! ### The consumer going away (outside C13's statement, modelled to state the limit)
+
+`_predict_generator` can stop draining the queue without reaching the marker: the network raises
+inside the loop, or the caller closes / abandons the generator early.  The consumer then never
+calls `get` or `join` again.  `abortC` is that event (enabled while the consumer is in its get
+loop); `StepA` = the system extended with it. -/
+
+def abortC (s : St) : St := { s with c := .finished, batch := [] }
+
+inductive StepA (P : Params) : St → St → Prop
+  | step {s s'} : Step P s s' → StepA P s s'
+  | abort {s} : s.c = .getting → StepA P s (abortC s)
+
+inductive ReachA (P : Params) : St → Prop
+  | init : ReachA P (init P)
+  | step {s s'} : ReachA P s → StepA P s s' → ReachA P s'
+
 def isFinal (s : St) : Prop := s.p = .done ∧ s.c = .finished ∧ s.q = []
 
 instance (s : St) : Decidable (isFinal s) := by unfold isFinal; infer_instance
